@@ -19,7 +19,8 @@ Inductive targ : Type := TInt (d : decl) | TStr (b : list N).
 Inductive item : Type :=
 | IName (d : decl)
 | IBlk (bk : bkind) (k seg : N) (fa : list N) (body : list item)
-| ILeaf (lk : lkind) (seg : N) (fa : list N) (ta : list targ).
+| ILeaf (lk : lkind) (seg : N) (fa : list N) (ta : list targ)
+| IPkg (seg k n : N) (elems : list targ).          (* Name(SEG, Package(n){ constants }) *)
 
 (** Device and Method blocks (the fragments F1 / F2) *)
 Definition IDev (k seg : N) (body : list item) : item := IBlk BDev k seg [] body.
@@ -44,6 +45,7 @@ Fixpoint enc_item (it : item) : list N :=
       enc_op (bk_op bk) ++ enc_pkglen k (k + lenN (seg_bytes seg ++ enc_fx (bfx bk fa) ++ flat_map enc_item body)) ++
       seg_bytes seg ++ enc_fx (bfx bk fa) ++ flat_map enc_item body
   | ILeaf lk seg fa ta => enc_op (lk_op lk) ++ seg_bytes seg ++ enc_fx (lfx lk fa) ++ enc_ta ta
+  | IPkg seg k n elems => OP_NAME :: seg_bytes seg ++ [OP_PACKAGE] ++ enc_pkglen k (k + lenN ([n] ++ enc_ta elems)) ++ [n] ++ enc_ta elems
   end.
 Definition enc_items (l : list item) : list N := flat_map enc_item l.
 
@@ -51,13 +53,15 @@ Definition enc_items (l : list item) : list N := flat_map enc_item l.
 Fixpoint isz (it : item) : nat :=
   match it with IName _ => 3%nat
               | IBlk bk _ _ fa body => (3 + length (bfx bk fa) + fold_right (fun x n => (isz x + n)%nat) O body)%nat
-              | ILeaf lk _ fa ta => (2 + length (lfx lk fa) + length ta)%nat end.
+              | ILeaf lk _ fa ta => (2 + length (lfx lk fa) + length ta)%nat
+              | IPkg _ _ _ elems => (5 + length elems)%nat end.
 Definition iszs (l : list item) : nat := fold_right (fun x n => (isz x + n)%nat) O l.
 
 Fixpoint icnt (it : item) : nat :=
   match it with IName _ => 2%nat
               | IBlk bk _ _ fa body => (2 + length (bfx bk fa) + fold_right (fun x n => (icnt x + n)%nat) O body)%nat
-              | ILeaf lk _ fa ta => (2 + length (lfx lk fa) + length ta)%nat end.
+              | ILeaf lk _ fa ta => (2 + length (lfx lk fa) + length ta)%nat
+              | IPkg _ _ _ elems => (5 + length elems)%nat end.
 Definition icnts (l : list item) : nat := fold_right (fun x n => (icnt x + n)%nat) O l.
 
 Definition pkglen_okb (k v : N) : bool :=
@@ -83,6 +87,8 @@ Fixpoint item_okb (it : item) : bool :=
   | ILeaf lk seg fa ta =>
       lead_okb (seg_lead seg) && (seg <? 0x100000000) && Nat.eqb (length fa) (length (lk_ws lk)) && fx_okb (lfx lk fa) &&
       Nat.eqb (length ta) (lk_nt lk) && forallb targ_okb ta
+  | IPkg seg k n elems =>
+      lead_okb (seg_lead seg) && (seg <? 0x100000000) && (n <? 256) && pkglen_okb k (k + lenN ([n] ++ enc_ta elems)) && forallb targ_okb elems
   end.
 
 (** ---- the trees ---- *)
@@ -120,6 +126,11 @@ Definition targ_pay (off : N) (a : targ) : pay := match a with TInt d => cst_pay
 Fixpoint cst_pays (off : N) (ta : list targ) : list pay :=
   match ta with [] => [] | a :: r => targ_pay off a :: cst_pays (off + lenN (enc_targ a)) r end.
 Definition nlf (lk : lkind) (fa : list N) : N := N.of_nat (length (lfx lk fa)).
+(** a Package: not a named object; children = number of elements (ByteData) and a ScopeBlock with the elements *)
+Definition pkg_pay (off : N) : pay := mkPay aml_pOpPackage 11 h name_zero off 0 None.
+Definition pkg_tree (b off k n : N) (elems : list targ) : rose :=
+  RN b (pkg_pay off) [RN (b + 1) (num_pay h W1 (off + 1 + k) n) [];
+                      RN (b + 2) (sb_pay (off + 1 + k + 1)) (leaf_row (b + 3) (cst_pays (off + 1 + k + 1) elems))].
 
 (** after the first pass: the constant is the next sibling of the Name object; names are not set *)
 Fixpoint lay1_item (b off : N) (it : item) : list rose :=
@@ -134,6 +145,8 @@ Fixpoint lay1_item (b off : N) (it : item) : list rose :=
                  (b + 3 + nfx bk fa) (sb_off bk off k fa) body)])]
   | ILeaf lk seg fa ta =>
       RN b (lf_pay lk off name_zero) (leaf_row (b + 1) (lhd_pays lk off fa)) :: leaf_row (b + 2 + nlf lk fa) (cst_pays (ta_off lk off fa) ta)
+  | IPkg seg k n elems =>
+      [RN b (nam_pay off name_zero) [RN (b + 1) (pth_pay (off + 1)) []]; pkg_tree (b + 2) (off + 5) k n elems]
   end.
 Fixpoint lay1 (b off : N) (l : list item) : list rose :=
   match l with [] => [] | x :: t => lay1_item b off x ++ lay1 (b + N.of_nat (isz x)) (off + lenN (enc_item x)) t end.
@@ -157,6 +170,8 @@ Fixpoint lay2_item (b off : N) (it : item) : list rose :=
                  (b + 3 + nfx bk fa) (sb_off bk off k fa) body)])]
   | ILeaf lk seg fa ta =>
       [RN b (lf_pay lk off (seg_nm seg)) (leaf_row (b + 1) (lhd_pays lk off fa ++ cst_pays (ta_off lk off fa) ta))]
+  | IPkg seg k n elems =>
+      [RN b (nam_pay off (seg_nm seg)) [RN (b + 1) (pth_pay (off + 1)) []; pkg_tree (b + 2) (off + 5) k n elems]]
   end.
 Fixpoint lay2 (b off : N) (l : list item) : list rose :=
   match l with [] => [] | x :: t => lay2_item b off x ++ lay2 (b + N.of_nat (isz x)) (off + lenN (enc_item x)) t end.
@@ -230,8 +245,14 @@ Proof. unfold lhd_pays. cbn [length]. rewrite len_fx_pays. reflexivity. Qed.
 Lemma len_cst_pays h tbl off ta : length (cst_pays h tbl off ta) = length ta.
 Proof. revert off. induction ta as [|d r IH]; intros off; cbn [cst_pays length]; [reflexivity|rewrite IH; reflexivity]. Qed.
 
+Lemma isz_pkg seg k n elems : isz (IPkg seg k n elems) = (5 + length elems)%nat.
+Proof. reflexivity. Qed.
+Lemma enc_pkg_item seg k n elems : enc_item (IPkg seg k n elems) =
+  OP_NAME :: seg_bytes seg ++ [OP_PACKAGE] ++ enc_pkglen k (k + lenN ([n] ++ enc_ta elems)) ++ [n] ++ enc_ta elems.
+Proof. reflexivity. Qed.
+
 Lemma isz_pos it : (2 <= isz it)%nat.
-Proof. destruct it; [cbn; lia|rewrite isz_blk; lia|rewrite isz_leaf; lia]. Qed.
+Proof. destruct it; [cbn; lia|rewrite isz_blk; lia|rewrite isz_leaf; lia|rewrite isz_pkg; lia]. Qed.
 
 (** induction on the number of objects *)
 Lemma items_ind (P : list item -> Prop) :
@@ -239,16 +260,18 @@ Lemma items_ind (P : list item -> Prop) :
   (forall d rest, P rest -> P (IName d :: rest)) ->
   (forall bk k seg fa body rest, P body -> P rest -> P (IBlk bk k seg fa body :: rest)) ->
   (forall lk seg fa ta rest, P rest -> P (ILeaf lk seg fa ta :: rest)) ->
+  (forall seg k n elems rest, P rest -> P (IPkg seg k n elems :: rest)) ->
   forall l, P l.
 Proof.
-  intros H0 Hn Hd Hlf.
+  intros H0 Hn Hd Hlf Hpk.
   assert (HS : forall n l, (iszs l <= n)%nat -> P l).
   { induction n as [|n IH]; intros l Hl.
     - destruct l as [|x t]; [exact H0|]. cbn [iszs fold_right] in Hl. pose proof (isz_pos x). lia.
     - destruct l as [|x t]; [exact H0|]. cbn [iszs fold_right] in Hl. fold (iszs t) in Hl. pose proof (isz_pos x).
-      destruct x as [d|bk k seg fa body|lk seg fa ta].
+      destruct x as [d|bk k seg fa body|lk seg fa ta|seg k ne elems].
       + apply Hn. apply IH. lia.
       + rewrite isz_blk in Hl. apply Hd; apply IH; lia.
-      + apply Hlf. apply IH. lia. }
+      + apply Hlf. apply IH. lia.
+      + apply Hpk. apply IH. lia. }
   intros l. apply (HS (iszs l)). lia.
 Qed.
